@@ -131,6 +131,11 @@ def evaluate(name, props=None):
     if rc != 0:
         return dict(error="patch does not apply: " + out[-300:])
     res = {}
+    saved = {}
+    for pid in props:  # evidence files must only ever describe runs on the unchanged tree
+        ep = os.path.join(ROOT, "evidence", pid + ".json")
+        if os.path.exists(ep):
+            saved[ep] = open(ep).read()
     try:
         for pid in props:
             t0 = time.time()
@@ -146,6 +151,8 @@ def evaluate(name, props=None):
     finally:
         sh(["git", "-C", "/repo", "checkout", "--", "."])
         sh(["git", "-C", "/repo", "clean", "-fdq", "--", "."])
+        for ep, data in saved.items():
+            open(ep, "w").write(data)
         # leave Generated/*.lean in the state of the restored tree
         sh(["python3", "-c", "import sys; sys.path.insert(0, 'run'); import verif; verif.regenerate()"], cwd=ROOT)
     return res
